@@ -436,8 +436,16 @@ def run_check(pid, units, tier, seed, level, notes=None, checker_cmd=None, assum
         "undecided": undecided,
         "exhaustive": all(r.exhaustive for r in b_res) if b_res else False,
     }
+    general = []
+    if obligations:
+        general = ["machine arithmetic treated as mathematical: python floats are real numbers in every obligation (IEEE rounding, overflow, NaN not modelled; "
+                   "numeric refutations are replayed on the real function at tolerance 1e-6); python ints are unbounded, which is exact",
+                   "python semantics as encoded by pyvc (subset, evaluation order, exceptions as listed per function; parameters not aliased unless stated); guarded by the "
+                   "CPython cross-check and the specification conformance test (`./run selftest`), not proved",
+                   "soundness of z3 / cvc5 (and of Lean + Mathlib where a certificate is named); termination is not proved (partial correctness)"]
+    cov["trusted_base"] = cov["trusted_base"] + general
     ev = {"property_id": pid, "tier": tier, "seed": seed, "level": level, "coverage": cov,
-          "assumptions": list(assumptions) + sorted({a for r in results for a in r.assumptions}),
+          "assumptions": list(assumptions) + sorted({a for r in results for a in r.assumptions}) + general,
           "wall_s": round(time.time() - t0, 2), "violations": len(new_violations)}
     with open(ev_path, "w") as fh:
         json.dump(ev, fh, indent=1, default=str)
